@@ -423,9 +423,12 @@ fn histories<K: BoolKind>(threads: u32, depth: usize, mism: &mut u64) {
             let mut order: Vec<u32> = vec![0, 1, 2];
             proto::throttle_threads();
             let mref: MRefOf<K> = K::new_manager(64, 16, threads);
+            // housekeeping collections while there is nothing to collect (no variable yet / no function yet)
+            mref.with_manager_shared(|m| m.gc());
             mref.with_manager_exclusive(|m| {
                 m.add_vars(3);
             });
+            mref.with_manager_shared(|m| m.gc());
             if threads > 1 {
                 K::set_split_depth(&mref, Some(2));
             }
